@@ -61,6 +61,7 @@ class Ctx:
         self.notes = []
         self.assumed_used = set()  # names of npc/pyc contracts reached
         self.stub_calls = []
+        self.approx_used = False
 
     # -- fresh symbols ------------------------------------------------------------------
     def fresh(self, base, sort='int'):
@@ -152,6 +153,12 @@ class Ctx:
             if not ok:
                 # concrete falsity on a feasible path: any model of PC is a witness
                 r, m = self._check()
+                if r == z3.unknown and cvc5_check(self.solver, z3.BoolVal(True)) == 'unsat':
+                    r = z3.unsat
+                if r == z3.unsat:
+                    rec.update(result='discharged', backend='infeasible-path')
+                elif r == z3.unknown:
+                    rec.update(result='undecided')
                 rec['model'] = self.model_inputs(m) if m is not None else None
                 rec['solver'] = 'clause evaluated to False on this path; path condition is %s' % r
             self.oblig.append(rec)
@@ -175,12 +182,39 @@ class Ctx:
         elif r == z3.sat:
             rec.update(result='failed', backend=backend, model=self.model_inputs(m),
                        solver='sat: negation of clause is satisfiable under the path condition')
+            rec['_neg'] = z3.Not(c)
         else:
             rec.update(result='undecided', backend=backend, model=None,
                        solver='unknown: %s' % self.solver.reason_unknown())
         rec['time'] = time.time() - t0
         self.oblig.append(rec)
         return rec['result'] == 'discharged'
+
+    def prove_all(self, clauses, kind='clause'):
+        """Discharge a dict of clauses: one batched query for the conjunction first; only when that is
+        not valid are the clauses tried one by one (to name the failing obligation)."""
+        t0 = time.time()
+        pend = []
+        for label, cond in clauses.items():
+            if isinstance(cond, bool) or cond is None:
+                self.prove(label, cond, kind)
+                continue
+            c = z3.simplify(as_z3bool(cond))
+            if _is_true(c):
+                self.oblig.append({'label': label, 'kind': kind, 'result': 'discharged', 'backend': 'simplify', 'model': None, 'time': 0.0})
+            else:
+                pend.append((label, c))
+        if not pend:
+            return
+        if len(pend) > 1:
+            r, _ = self._check(z3.Not(z3.And(*[c for _, c in pend])))
+            if r == z3.unsat:
+                dt = (time.time() - t0) / len(pend)
+                for label, c in pend:
+                    self.oblig.append({'label': label, 'kind': kind, 'result': 'discharged', 'backend': 'z3-batch', 'model': None, 'time': dt})
+                return
+        for label, c in pend:
+            self.prove(label, MBool(c), kind)
 
     def model_inputs(self, m):
         out = {}
@@ -206,8 +240,9 @@ class Ctx:
         if z3.is_rational_value(r):
             fr = Fraction(r.numerator_as_long(), r.denominator_as_long())
             return z3.IntVal(fr.numerator // fr.denominator)
-        if z3.is_app_of(r, z3.Z3_OP_TO_REAL):
-            return r.arg(0)
+        iv = int_view(r)
+        if iv is not None:
+            return z3.simplify(iv)
         key = r.get_id()
         hit = self.floor_memo.get(key)
         if hit is not None:
@@ -304,6 +339,105 @@ def zval(v):
         a = v.approx(20)
         return Fraction(a.numerator_as_long(), a.denominator_as_long())
     raise CheckerError('cannot concretise %r' % (v,))
+
+
+# ----------------------------------------------------------------------------------------
+# keeping integer problems integer (z3 is weak on mixed Int/Real with huge bounds)
+# ----------------------------------------------------------------------------------------
+_IV_MEMO = {}
+
+def int_view(t):
+    """An Int-sorted term equal to the Real term t when t is syntactically integer-valued; else None."""
+    if z3.is_int(t):
+        return t
+    key = t.get_id()
+    hit = _IV_MEMO.get(key, 0)
+    if hit != 0:
+        return hit[1]
+    r = _int_view(t)
+    if len(_IV_MEMO) > 200000:
+        _IV_MEMO.clear()
+    _IV_MEMO[key] = (t, r)      # keep t alive so ids are not reused
+    return r
+
+def _int_view(t):
+    if z3.is_rational_value(t):
+        if t.denominator_as_long() == 1:
+            return z3.IntVal(t.numerator_as_long())
+        return None
+    if not z3.is_app(t):
+        return None
+    k = t.decl().kind()
+    if k == z3.Z3_OP_TO_REAL:
+        return t.arg(0)
+    if k in (z3.Z3_OP_ADD, z3.Z3_OP_MUL, z3.Z3_OP_SUB, z3.Z3_OP_UMINUS):
+        parts = [int_view(a) for a in t.children()]
+        if any(p is None for p in parts):
+            return None
+        if k == z3.Z3_OP_ADD:
+            r = parts[0]
+            for p in parts[1:]: r = r + p
+            return r
+        if k == z3.Z3_OP_MUL:
+            r = parts[0]
+            for p in parts[1:]: r = r * p
+            return r
+        if k == z3.Z3_OP_SUB:
+            r = parts[0]
+            for p in parts[1:]: r = r - p
+            return r
+        return -parts[0]
+    if k == z3.Z3_OP_ITE:
+        a, b = int_view(t.arg(1)), int_view(t.arg(2))
+        if a is None or b is None:
+            return None
+        return z3.If(t.arg(0), a, b)
+    return None
+
+
+def _coef_dens(t, out, depth=0):
+    """collect denominators of rational coefficients of a simplified linear-ish real term"""
+    if z3.is_rational_value(t):
+        out.append(t.denominator_as_long())
+        return
+    if not z3.is_app(t) or depth > 6:
+        return
+    k = t.decl().kind()
+    if k in (z3.Z3_OP_ADD, z3.Z3_OP_SUB, z3.Z3_OP_UMINUS):
+        for a in t.children():
+            _coef_dens(a, out, depth + 1)
+    elif k == z3.Z3_OP_MUL:
+        for a in t.children():
+            if z3.is_rational_value(a):
+                out.append(a.denominator_as_long())
+    elif k == z3.Z3_OP_ITE:
+        _coef_dens(t.arg(1), out, depth + 1)
+        _coef_dens(t.arg(2), out, depth + 1)
+
+
+def cmp_terms(a, b, op):
+    """op(a, b) for two arithmetic terms, moved to pure integer arithmetic when both sides are
+    (dyadic-)integer valued."""
+    if z3.is_int(a) and z3.is_int(b):
+        return op(a, b)
+    ra = z3.ToReal(a) if z3.is_int(a) else a
+    rb = z3.ToReal(b) if z3.is_int(b) else b
+    d = z3.simplify(ra - rb)
+    dens = []
+    _coef_dens(d, dens)
+    L = 1
+    for x in dens:
+        if x != 1:
+            from math import gcd
+            L = L * x // gcd(L, x)
+    if L != 1:
+        if L > (1 << 400):
+            return op(ra, rb)
+        d = z3.simplify(d * z3.RealVal(L))
+    iv = int_view(d)
+    if iv is not None:
+        return op(z3.simplify(iv), z3.IntVal(0))
+    return op(ra, rb)
 
 
 # ----------------------------------------------------------------------------------------
@@ -501,7 +635,7 @@ class SNum:
     @staticmethod
     def float_of_intterm(iw, g=0):
         """float value iw / 2**g (exactness is the caller's obligation)."""
-        t = z3.ToReal(iw) if g == 0 else z3.ToReal(iw) * zreal(pow2(-g))
+        t = z3.ToReal(iw) if g == 0 else z3.ToReal(iw) * zreal(Fraction(pow2(-g)))
         return SNum(z3.simplify(t), dy=(iw, g))
 
     # ---- fail closed ------------------------------------------------------------------
@@ -539,8 +673,8 @@ class SNum:
     # ---- comparisons ------------------------------------------------------------------
     def _cmp(self, o, op):
         if isinstance(o, (SNum, SBool, int, float, bool, Fraction)) and not _isnonfinite(o):
-            a, b = _coerce_pair(self, o)
-            return mkbool(op(a, b))
+            a, b = zterm(self), zterm(o)
+            return mkbool(cmp_terms(a, b, op))
         if isinstance(o, float):   # inf / nan
             return _cmp_nonfinite(self, o, op)
         return NotImplemented
@@ -675,8 +809,14 @@ def float_result(iw, g, what):
     exact = SNum.float_of_intterm(iw, g)
     if ok:
         return exact
+    return approx_float(exact.t, what)
+
+def approx_float(e, what):
+    """A double within relative 2^-53 of the exact real e (sound over-approximation of one correctly
+    rounded IEEE operation).  Obligations that fail on a path that used this are confirmed by replay."""
+    CTX.notes.append('float rounding over-approximated at %s' % what)
+    CTX.approx_used = True
     r = CTX.fresh('rnd', 'real')
-    e = exact.t
     ae = z3.If(e >= 0, e, -e)
     CTX.solver.add(r - e <= ae * zreal(Fraction(1, 2**53)), e - r <= ae * zreal(Fraction(1, 2**53)))
     return SNum(r)
@@ -741,19 +881,17 @@ def py_binop(op, a, b):
                     dy = None
                     if x.dy is not None:
                         iw, g = x.dy
-                        g2 = g - k
-                        if g2 < 0:
-                            iw, g2 = z3.simplify(iw * (1 << (-g2))), 0
-                        dy = (z3.simplify(iw * sgn), g2)
+                        dy = (z3.simplify(iw * sgn), g - k)
                     return SNum(z3.simplify(xt * zreal(Fraction(y))), dy)
         da, db = dyadic_of(fa), dyadic_of(fb)
         if da is None or db is None:
-            raise Undecided('product of floats without dyadic witnesses')
+            return approx_float(z3.simplify(zreal(fa) * zreal(fb)), 'float*float (free real)')
         return float_result(_mul_int(da[0], db[0]), da[1] + db[1], 'float*float')
     if op in ('add', 'sub'):
         da, db = dyadic_of(fa), dyadic_of(fb)
         if da is None or db is None:
-            raise Undecided('sum of floats without dyadic witnesses')
+            ex = zreal(fa) + zreal(fb) if op == 'add' else zreal(fa) - zreal(fb)
+            return approx_float(z3.simplify(ex), 'float+-float (free real)')
         g = max(da[1], db[1])
         x = da[0] * (1 << (g - da[1]))
         y = db[0] * (1 << (g - db[1]))
@@ -878,17 +1016,12 @@ def _truediv(a, b):
             sgn = 1 if b > 0 else -1
             if kind_of(a) == 'int':
                 iw = z3.simplify(zint(a) * sgn)
-                if k >= 0:
-                    return float_result(iw, k, 'int/2^k')
-                return float_result(z3.simplify(iw * (1 << -k)), 0, 'int/2^k')
+                return float_result(iw, k, 'int/2^k')
             fa = a
             dy = None
             if fa.dy is not None:
                 iw, g = fa.dy
-                g2 = g + k
-                if g2 < 0:
-                    iw, g2 = z3.simplify(iw * (1 << (-g2))), 0
-                dy = (z3.simplify(iw * sgn), g2)
+                dy = (z3.simplify(iw * sgn), g + k)
             return SNum(z3.simplify(zreal(fa) / zreal(Fraction(b))), dy)
         # concrete non-power-of-two divisor: exact iff divisible
         fb = Fraction(b)
@@ -963,16 +1096,16 @@ class MTerm:
         return MTerm(zreal(mterm(o)) / zreal(self))
     def __neg__(self): return MTerm(-self.t)
     def __abs__(self): return MTerm(z3.If(self.t >= 0, self.t, -self.t))
-    def __lt__(self, o): return MBool(self._b(o, lambda a, b: a < b))
-    def __le__(self, o): return MBool(self._b(o, lambda a, b: a <= b))
-    def __gt__(self, o): return MBool(self._b(o, lambda a, b: a > b))
-    def __ge__(self, o): return MBool(self._b(o, lambda a, b: a >= b))
+    def __lt__(self, o): return MBool(cmp_terms(self.t, mterm(o).t, lambda a, b: a < b))
+    def __le__(self, o): return MBool(cmp_terms(self.t, mterm(o).t, lambda a, b: a <= b))
+    def __gt__(self, o): return MBool(cmp_terms(self.t, mterm(o).t, lambda a, b: a > b))
+    def __ge__(self, o): return MBool(cmp_terms(self.t, mterm(o).t, lambda a, b: a >= b))
     def __eq__(self, o):
         if o is None: return False
-        return MBool(self._b(o, lambda a, b: a == b))
+        return MBool(cmp_terms(self.t, mterm(o).t, lambda a, b: a == b))
     def __ne__(self, o):
         if o is None: return True
-        return MBool(self._b(o, lambda a, b: a != b))
+        return MBool(cmp_terms(self.t, mterm(o).t, lambda a, b: a != b))
     def __hash__(self): raise CheckerError('hash MTerm')
     def __bool__(self): raise CheckerError('truth value of MTerm')
     def __repr__(self): return 'MTerm(%s)' % self.t
